@@ -42,6 +42,17 @@ def cases(rng, tier):
         ts = [20 * rng.randint(0, 400) + 7 for _ in range(10)] + [7, 27, 1007]
         seq = [rng.choice("cccp") + str(rng.choice(ts)) for _ in range(30)]
         yield ("light x %s %s" % (hexs(prog), ",".join(seq)), "deep-nesting-history")
+    # hundreds or thousands of commands at one instant (a zero-time loop at the start, another one later), and many
+    # back-seeks in a row that all stay inside the first timed command: whatever is counted per instant or per replay
+    # must start over with every rewind
+    for n1, n2 in ([(250, 1), (100, 3), (255, 9), (40, 40)] if not thorough else [(250, 1), (100, 3), (255, 9), (40, 40), (255, 33), (17, 255)]):
+        zero_body = [0x04, rng.randrange(256), rng.randrange(256), rng.randrange(256), 0, 0x01]
+        prog = [0x0c, n2, 0x0c, n1] + zero_body + [0x0d, 0x0d]
+        prog += [0x04, 255, 0, 0, 250, 0x0c, 60] + zero_body + [0x0d, 0x04, 0, 255, 0, 100, 0x08, 0, 0, 255, 50, 0x00]
+        down = sorted(rng.sample(range(7, 4990), 24), reverse=True)
+        seq = ["c%d" % t for t in down] + ["c5500", "p6200", "c7900", "c100", "c6000", "c0", "c8000"]
+        yield ("light x %s %s" % (hexs(prog), ",".join(seq)), "busy-instant-history")
+        yield ("light h %s %s" % (hexs(prog), ",".join(seq)), "busy-instant-history")
     for i in range(8000 if thorough else 700):
         prog = L.rand_program(rng, maxdepth_cap=4)
         cyc = L.has_cycle(prog)
